@@ -260,6 +260,8 @@ def run(sc, tier, replay):
             bruns.append({"id": rid, "reset": {"ev": "Reset", "n": o["n"], "run": rid}, "events": to_tlc_events(o["trace"] or [])})
         if r.timed_out:
             raise vlib.MachineryError("stress shard %d timed out" % k)
+        if r.returncode == 66 and not vlib.race_in_code_under_test(r.stderr):
+            raise vlib.MachineryError("data race inside the harness itself:\n" + r.stderr[:3000])
         if r.returncode == 66:
             V.violation("race:stress", "the Go race detector reported a data race inside the helper during a free run",
                         {"stderr": r.stderr[-4000:]})
